@@ -170,6 +170,9 @@ fn port_of_class(t: &mut Tape, class: u8) -> u16 {
 fn build_side(tape: &mut Tape, idx: usize, desc: &mut String) -> Side {
     let mut cfg = NodeCfg::basic(if idx == 0 { 'A' } else { 'B' }, Medium::Ieee802154, MAX_FRAME, idx as u8 + 1, true);
     cfg.addrs.clear();
+    // the device's MTU capability is the IP-level MTU (TCP derives its MSS from it); the frames themselves
+    // are limited to 125 octets by the 6LoWPAN layer whatever it says
+    cfg.mtu = *tape.pick(&[MAX_FRAME, 1280, 1500, MAX_FRAME]);
     cfg.pan = Some(PAN);
     cfg.seed = 11 + tape.draw(1 << 16) + idx as u64;
     // (smoltcp's neighbour discovery only understands 8-octet link-layer address options, so a node with a
@@ -256,8 +259,9 @@ fn build_side(tape: &mut Tape, idx: usize, desc: &mut String) -> Side {
     let icmp_h = node.sockets.add(ic);
     let tcp_h = node.sockets.add(tcp::Socket::new(tcp::SocketBuffer::new(vec![0; 2048]), tcp::SocketBuffer::new(vec![0; 2048])));
     desc.push_str(&format!(
-        " {}: ll={:?} addrs=[{}] udp-ports={:?} ident={:#x} ctx={}",
+        " {}: mtu={} ll={:?} addrs=[{}] udp-ports={:?} ident={:#x} ctx={}",
         cfg.name,
+        cfg.mtu,
         ll,
         addrs.iter().map(show6).collect::<Vec<_>>().join(","),
         udps.iter().map(|(_, p, h)| format!("{:#x}/hl{}", p, h)).collect::<Vec<_>>(),
@@ -456,8 +460,15 @@ fn complete(c: &mut C, i: usize, dg: usize, ip6: Vec<u8>) -> Result<(), Violatio
     let pkt = match decode_ip(&ip6, &Verify::all(), true) {
         Ok(p) => p,
         Err(e) => {
+            let detail = format!("the datagram node {} put on the wire decompresses (independent RFC 6282 decoder) to an invalid packet: {} {} ; ipv6={}", name, e.layer, e.msg, hexs(&ip6[..ip6.len().min(120)]));
+            if e.kind == ErrKind::Checksum && c.props.has("C08") {
+                return Err(viol("C08", "emitted-valid", format!("C08.emit/6lowpan:{}", e.layer), detail));
+            }
+            if c.props.has("C10") {
+                return Err(viol("C10", "wellformed", format!("C10.6lowpan/decompressed-datagram-invalid:{}", e.layer), detail));
+            }
             if on {
-                return Err(v(format!("C20.compress/decompressed-datagram-invalid:{}", e.layer), "wire-datagram", format!("the datagram node {} put on the wire decompresses (independent RFC 6282 decoder) to an invalid packet: {} {} ; ipv6={}", name, e.layer, e.msg, hexs(&ip6[..ip6.len().min(120)]))));
+                return Err(v(format!("C20.compress/decompressed-datagram-invalid:{}", e.layer), "wire-datagram", detail));
             }
             return Ok(());
         }
